@@ -1,0 +1,138 @@
+//! Verification hook, compiled only with `--cfg statime_verif`.
+//!
+//! Gives a read-only, typed copy of the internal bookkeeping of a [`Port`] so
+//! that an external conformance harness can compare it with a model. Nothing
+//! here changes any state.
+
+use std::vec::Vec;
+
+use super::{
+    state::{DelayState, PortState, SyncState},
+    PeerDelayState, Port,
+};
+use crate::{
+    config::ClockIdentity,
+    filters::Filter,
+    time::{Duration, Time},
+};
+
+/// Port identity as (clock identity, port number)
+pub type VerifPortId = (ClockIdentity, u16);
+
+/// State of a sync or delay exchange: (sequence id, send time, receive time)
+pub type VerifExchange = Option<(u16, Option<Time>, Option<Time>)>;
+
+/// State of the peer delay exchange
+#[derive(Debug, Clone, PartialEq, Eq)]
+#[allow(missing_docs)]
+pub enum VerifPeerDelay {
+    Empty,
+    Measuring {
+        id: u16,
+        responder: Option<VerifPortId>,
+        request_send_time: Option<Time>,
+        request_recv_time: Option<Time>,
+        response_send_time: Option<Time>,
+        response_recv_time: Option<Time>,
+    },
+    PostMeasurement {
+        id: u16,
+        responder: VerifPortId,
+    },
+}
+
+/// Copy of the internal state of a port
+#[derive(Debug, Clone, PartialEq, Eq)]
+#[allow(missing_docs)]
+pub struct VerifSnapshot {
+    pub state: &'static str,
+    pub remote_master: Option<VerifPortId>,
+    pub sync: VerifExchange,
+    pub delay: VerifExchange,
+    pub last_raw_sync_offset: Option<Duration>,
+    pub mean_delay: Option<Duration>,
+    pub peer_delay: VerifPeerDelay,
+    pub multiport_disable: Option<Duration>,
+    /// next sequence ids: announce, sync, delay request, peer delay request
+    pub next_seq: [u16; 4],
+    /// per foreign master: identity and (sequence id, age, steps removed) of
+    /// every stored announce message, oldest first
+    pub foreign_masters: Vec<(VerifPortId, Vec<(u16, Duration, u16)>)>,
+}
+
+impl<L, A, R, C, F: Filter, S> Port<'_, L, A, R, C, F, S> {
+    /// Typed copy of the internal state (verification builds only)
+    pub fn verif_snapshot(&self) -> VerifSnapshot {
+        let (state, remote_master, sync, delay, last_raw_sync_offset) = match &self.port_state {
+            PortState::Faulty => ("Faulty", None, None, None, None),
+            PortState::Listening => ("Listening", None, None, None, None),
+            PortState::Master => ("Master", None, None, None, None),
+            PortState::Passive => ("Passive", None, None, None, None),
+            PortState::Slave(s) => (
+                "Slave",
+                Some((s.remote_master.clock_identity, s.remote_master.port_number)),
+                match s.sync_state {
+                    SyncState::Empty => None,
+                    SyncState::Measuring {
+                        id,
+                        send_time,
+                        recv_time,
+                    } => Some((id, send_time, recv_time)),
+                },
+                match s.delay_state {
+                    DelayState::Empty => None,
+                    DelayState::Measuring {
+                        id,
+                        send_time,
+                        recv_time,
+                    } => Some((id, send_time, recv_time)),
+                },
+                s.last_raw_sync_offset,
+            ),
+        };
+        VerifSnapshot {
+            state,
+            remote_master,
+            sync,
+            delay,
+            last_raw_sync_offset,
+            mean_delay: self.mean_delay,
+            peer_delay: match self.peer_delay_state {
+                PeerDelayState::Empty => VerifPeerDelay::Empty,
+                PeerDelayState::Measuring {
+                    id,
+                    responder_identity,
+                    request_send_time,
+                    request_recv_time,
+                    response_send_time,
+                    response_recv_time,
+                } => VerifPeerDelay::Measuring {
+                    id,
+                    responder: responder_identity.map(|i| (i.clock_identity, i.port_number)),
+                    request_send_time,
+                    request_recv_time,
+                    response_send_time,
+                    response_recv_time,
+                },
+                PeerDelayState::PostMeasurement {
+                    id,
+                    responder_identity,
+                } => VerifPeerDelay::PostMeasurement {
+                    id,
+                    responder: (
+                        responder_identity.clock_identity,
+                        responder_identity.port_number,
+                    ),
+                },
+            },
+            multiport_disable: self.multiport_disable,
+            next_seq: [
+                self.announce_seq_ids.verif_peek(),
+                self.sync_seq_ids.verif_peek(),
+                self.delay_seq_ids.verif_peek(),
+                self.pdelay_seq_ids.verif_peek(),
+            ],
+            foreign_masters: self.bmca.verif_dump(),
+        }
+    }
+}
